@@ -33,6 +33,7 @@ case "$CMD" in
   run)
     PATCH="$3"; ID="$4"; TIER="${5:-quick}"; BASE="${6:-}"
     cd "$S/repo" && git checkout -- . || exit 3
+    git clean -fdq -e target
     # the patch as it is; else merged onto the current tree (the files it touches moved on since it was written:
     # later fix: commits); else, as a last resort, the touched files as they were at the seed's base
     if git apply --check "$PATCH" 2>/dev/null; then
@@ -47,7 +48,7 @@ case "$CMD" in
       git apply "$PATCH" || { echo "patch does not apply"; git checkout HEAD -- . ; git reset -q; exit 3; }
     fi
     "$S/verif/check" "$ID" "$TIER" > "$S/out.txt" 2>&1; RC=$?
-    git checkout HEAD -- . ; git reset -q
+    git checkout HEAD -- . ; git reset -q; git clean -fdq -e target
     grep -E "^(VIOLATION|KNOWN-FINDING|MACHINERY|property=)" "$S/out.txt" | cut -c1-300 | head -n 40
     echo "exit=$RC"
     find "$S/verif/replays" -mindepth 1 -delete 2>/dev/null
